@@ -17,7 +17,7 @@ CONFIG = dict(
           "evaluated x strictly inside a segment where dX does not divide 10^6*(x-x0) (the ratio is rounded); invalid "
           "lists are counted as evaluations but not as non-trivial; distinct by hash of (dots, xs)."),
     assumptions=["the supported coordinate range is 0..MaxUint64/10^6-1 as defined in piecefunc.go (the property text does not give the number)"],
-    level_more='One table in six has 7-70 dots, all of which (and a point of every piece) are evaluated.',
+    level_more='One table in six has 7-70 dots, all of which (and a point of every piece) are evaluated. The dot list is part of a longer caller table that must not change; a fifth of the tables have power-of-two gaps.',
     units=[
         dict(test="TestC31", quick=100000, thorough=16000000, shards=16),
         dict(test="TestC31Constants", kind="plain"),
